@@ -354,8 +354,8 @@ def parse_case(line):
     return base, FsCase(game, lang, layers, ops)
 
 
-# corpus lines: "fs $BASE g l layers... $CODEC ops..." with path tokens either L<..> or T<percent-escaped text>;
-# $ABS<i> inside a T token = absolute path of layer i (without the leading '/').
+# corpus lines: "fs $BASE g l layers... $CODEC ops..." with path tokens either L<..> or :<percent-escaped text>;
+# $ABS<i> inside a ':' token = absolute path of layer i (without the leading '/').
 def expand_corpus_line(line):
     base = fresh_base()
     toks = []
@@ -364,7 +364,7 @@ def expand_corpus_line(line):
             toks.append(base)
         elif t == "$CODEC":
             toks.append("0")
-        elif t.startswith("T"):
+        elif t.startswith(":"):
             s = unesc(t[1:])
             for i in range(4):
                 s = s.replace("$ABS%d" % i, abs_layer(base, i))
